@@ -788,7 +788,7 @@ func runC11(c *Check) {
 			if verdictOK {
 				c.OK("C11-R3", fnShort(step)+" ⟂ return-without-save", fn, p.InstrPos(x.In), why, true)
 			} else {
-				c.Bad("C11-R3", fnShort(step)+" ⟂ taken-batch-dropped ⟂ "+genericName(shortCond(cd.Cond, cd.Pol)), fn, p.InstrPos(x.In), "after a batch with transactions was taken from the sequencer the step can return without saving a block, on a condition that depends on the batch's content ("+trunc(cd.String(), 120)+"): the batch has left the sequencer's queue and its transactions are lost", g.DescribePath(path))
+				c.Bad("C11-R3", "production-step ⟂ taken-batch-dropped ⟂ "+genericName(shortCond(cd.Cond, cd.Pol)), fn, p.InstrPos(x.In), "after a batch with transactions was taken from the sequencer the step can return without saving a block, on a condition that depends on the batch's content ("+trunc(cd.String(), 120)+"): the batch has left the sequencer's queue and its transactions are lost", g.DescribePath(path))
 			}
 		}
 		if n3 == 0 {
@@ -808,7 +808,7 @@ func runC11(c *Check) {
 			c.OK("C11-R4", "single.GetNextBatch ⟂ no-durable-delete-on-hand-out", fnName(gn), sp.Pos(gn.Pos()), "handing out a batch does not delete it durably", true)
 		}
 		for _, d := range dels {
-			c.Bad("C11-R4", "single.GetNextBatch ⟂ durable-delete-on-hand-out in "+fnShort(d.Ctx.Fn), fnName(d.Ctx.Fn), sp.InstrPos(d.In), "the batch is deleted from the durable queue in the same call that hands it to the node; the node saves the block later: a crash in between loses the batch's transactions (they are already marked seen by the reaper)", nil)
+			c.Bad("C11-R4", "single.GetNextBatch ⟂ durable-delete-on-hand-out", fnName(d.Ctx.Fn), sp.InstrPos(d.In), "the batch is deleted from the durable queue in the same call that hands it to the node; the node saves the block later: a crash in between loses the batch's transactions (they are already marked seen by the reaper)", nil)
 		}
 	}
 	c.MinInstances("C11-R1", 2)
